@@ -84,6 +84,21 @@ func (p *player) buildNode() *gomavlib.Node {
 			} else {
 				go p.acceptLoop(i, l)
 			}
+			if e.Host != "" {
+				// the endpoint is given a domain name; the name points to 127.0.0.1 at first and can be re-pointed to
+				// 127.0.0.2, where a second fake server listens on the same port
+				_, port, _ := net.SplitHostPort(p.addrs[i])
+				l2, err := net.Listen("tcp4", "127.0.0.2:"+port)
+				if err != nil {
+					fatal("second address: %v", err)
+				}
+				p.listeners2[i] = l2
+				go p.acceptLoop(i, l2)
+				p.dnsIP.Store("127.0.0.1")
+				p.startDNS()
+				n.Endpoints = append(n.Endpoints, gomavlib.EndpointTCPClient{Address: e.Host + ":" + port})
+				continue
+			}
 			n.Endpoints = append(n.Endpoints, gomavlib.EndpointTCPClient{Address: p.addrs[i]})
 		case "udp_client":
 			// the fake server of a UDP client: every new source address is one channel instance of the endpoint
@@ -500,7 +515,12 @@ func (p *player) step(s ScStep) {
 					conn.Write(ch) //nolint:errcheck
 				}
 			} else {
-				p.rec.Put(M{"e": "Ambiguous", "what": "feed to unknown peer", "ep": s.Ep, "peer": s.Peer})
+				if atomic.LoadInt32(&p.waitFailed) != 0 {
+					// an earlier wait has timed out (that is the recorded outcome): the peer is missing because of it
+					p.rec.Put(M{"e": "Note", "what": "feed skipped: no such peer after a failed wait"})
+				} else {
+					p.rec.Put(M{"e": "Ambiguous", "what": "feed to unknown peer", "ep": s.Ep, "peer": s.Peer})
+				}
 			}
 		}
 	case "feed_pack":
@@ -521,7 +541,12 @@ func (p *player) step(s ScStep) {
 			if conn != nil {
 				conn.Write(all) //nolint:errcheck
 			} else {
-				p.rec.Put(M{"e": "Ambiguous", "what": "feed to unknown peer", "ep": s.Ep, "peer": s.Peer})
+				if atomic.LoadInt32(&p.waitFailed) != 0 {
+					// an earlier wait has timed out (that is the recorded outcome): the peer is missing because of it
+					p.rec.Put(M{"e": "Note", "what": "feed skipped: no such peer after a failed wait"})
+				} else {
+					p.rec.Put(M{"e": "Ambiguous", "what": "feed to unknown peer", "ep": s.Ep, "peer": s.Peer})
+				}
 			}
 		}
 	case "burst":
@@ -716,6 +741,9 @@ func (p *player) step(s ScStep) {
 				go p.acceptLoop(s.Ep, nl)
 			}
 		}
+	case "dns_point":
+		p.dnsIP.Store(s.Mode)
+		p.rec.Put(M{"e": "DNSPoint", "ip": s.Mode, "t": p.ms()})
 	case "sleep":
 		time.Sleep(time.Duration(s.Ms) * time.Millisecond)
 	case "quiesce":
@@ -920,6 +948,9 @@ func (p *player) final(baseline int, evClosed bool) {
 		if l != nil {
 			l.Close()
 		}
+	}
+	for _, l := range p.listeners2 {
+		l.Close()
 	}
 	for ep := range p.sc.Endpoints {
 		p.stopHang(ep)
